@@ -336,12 +336,12 @@ func c18Run(c *vlib.Ctx, idx int, sc c18Scenario) {
 	s.Master.Note("DROP", map[string]interface{}{"point": sc.Point})
 	s.Master.DropStream()
 	c.Count("reconnections", 1)
-	deadline := time.Now().Add(30 * time.Second)
+	deadline := time.Now().Add(120 * time.Second) // generous watchdog: a loaded machine is not a verdict
 	for time.Now().Before(deadline) && (s.Master.Life() == life0 || !s.Master.Subscribed()) {
 		time.Sleep(20 * time.Millisecond)
 	}
 	if s.Master.Life() == life0 {
-		c.Inconclusive("core did not resubscribe within 30 s")
+		c.Inconclusive("core did not resubscribe within 120 s")
 		release()
 		return
 	}
